@@ -620,9 +620,11 @@ def math_cases(run, rng, plan, pm, add, fail, model_diffs):
                     stats["_examples"].append({"code": code, "libm": repr(ref), "code_result": show(got)})
                 # a few ulps of freedom (libm functions are not correctly rounded); more is a
                 # disagreement with the platform library
-                if ulp_distance(got, bits(ref)) > 4:
-                    fail(f"std.{name} disagrees with the platform math library by more than 4 ulp", code,
-                         repr(ref), show(got))
+                # the implementation calls the platform library itself (f64::powf / exp / sin ... lower to the
+                # libm symbols this oracle calls through ctypes), so agreement is bit for bit; any difference
+                # means the result no longer comes from the platform library
+                fail(f"std.{name} disagrees with the platform math library "
+                     f"({ulp_distance(got, bits(ref))} ulp)", code, repr(ref), show(got))
         return j
 
     sample = xs if thorough else xs[::2]
@@ -637,6 +639,15 @@ def math_cases(run, rng, plan, pm, add, fail, model_diffs):
             a, b = rng.choice(xs), rng.choice(xs)
             code = f"std.{name}({lit(a)}, {lit(b)})"
             add(code, libm_judge(code, name, f(unbits(a), unbits(b))))
+    # std.pow where a repeated-multiplication shortcut would differ from libm pow(): integral exponents with
+    # non-dyadic bases, powers beyond 2^53, negative exponents, subnormal and near-overflow results
+    fpow = libm_fn("pow", 2)
+    pow_cases = [(0.3, 3), (0.1, 5), (1.1, 10), (-0.1, -3), (10, 33), (10, -23), (123456789, 4), (2, -1074),
+                 (2, -1030), (10, -310), (0.5, 1074), (3, 40), (7, -20), (1.0000001, 1000), (0.9999999, -1000),
+                 (2, 1023), (10, 308), (-3, 35), (-2.5, 7), (1.5, 2), (2, 10), (10, 3), (2, 0.5), (9, -0.5)]
+    for b_, e_ in pow_cases:
+        code = f"std.pow({b_!r}, {e_!r})"
+        add(code, libm_judge(code, "pow", fpow(float(b_), float(e_))))
 
 
 # ------------------------------------------------------------------ the check
